@@ -87,6 +87,10 @@ Record scfg := { s_key : list N; s_user : list N; s_pass : list N; s_crc : bool;
                  s_conn_to : Z; s_send_to : Z; s_recv_to : Z; s_rbuf : N; s_level : N; s_time : Z * Z;
                  s_attached : bool }.             (* attached: the harness installed connection 0 before the first call *)
 
+(* Client.Send (one request): SendMultiple with the one-element list, the result narrowed to the first message of the reply *)
+Definition send_one_result (r : res (list message)) : res (list message) :=
+  match r with Ok _ (m :: _) => Ok _ [m] | _ => r end.
+
 Definition fuel_per_call : nat := N.to_nat 200000.
 
 (* the defaults ClientConfig.check applies (the same rules as Config.check, proved there) *)
